@@ -254,3 +254,9 @@ def strip(s):
     if V.is_z3(s):
         return V.str_strip(s)
     return s.strip()
+
+
+def count(s, sub):
+    if V.is_z3(s):
+        return V.str_count(s, _z(sub))
+    return s.count(sub)
